@@ -459,6 +459,28 @@ Proof.
   apply zlist_neq. apply negb_true_iff. assumption.
 Qed.
 
+(* the D9 hypothesis of dur_deep_exact cannot be dropped: Duration(years=300, days=3, microseconds=7) has weeks = 0 but its
+   microseconds accessor is 8 (float resolution of Duration.__new__, C09), so the deep copy is one microsecond longer *)
+Definition dur_deep_outside_check : bool :=
+  match duration_new 3 0 7 0 0 0 0 300 0 with
+  | Ok d => match dur_rebuild RDeep d with
+            | Ok d' => (d_weeks d =? 0) && (d_micro d =? 8) && (d_N d' - d_N d =? 1) && negb (zlist_eqb (dur_public d') (dur_public d))
+            | Raise _ => false
+            end
+  | Raise _ => false
+  end.
+Lemma dur_deep_outside_check_true : dur_deep_outside_check = true. Proof. vm_compute. reflexivity. Qed.
+Lemma dur_deep_outside_witness :
+  exists d d', duration_new 3 0 7 0 0 0 0 300 0 = Ok d /\ d_weeks d = 0 /\ d_micro d = 8 /\ dur_rebuild RDeep d = Ok d'
+    /\ d_N d' = d_N d + 1 /\ dur_public d' <> dur_public d.
+Proof.
+  pose proof dur_deep_outside_check_true as H. unfold dur_deep_outside_check in H.
+  destruct (duration_new 3 0 7 0 0 0 0 300 0) as [d|] eqn:E1; [|discriminate].
+  destruct (dur_rebuild RDeep d) as [d'|] eqn:E2; [|discriminate].
+  split_and H. exists d, d'. repeat split; try assumption; try lia.
+  apply zlist_neq. apply negb_true_iff. assumption.
+Qed.
+
 Definition dur_pickle_check (r : route) : bool :=
   match duration_new 3 0 0 0 0 0 0 1 2 with
   | Ok d => match dur_rebuild r d with
